@@ -289,6 +289,41 @@ def build(tier="quick", seed=0):
     for e in ["any(any(x == 'b' for x in r.sl) and x == 'a' for x in r.sl)", "any(x == 'b' for x in r.sl for x in r.sl)"]:
         pack.add(expr_obligation(e, may_refuse=True))
 
+    # a Selector object handed to make_selector(force_compiled=True) gives a compiled selector of the same expression - and stays what it was: both answer as Python does, in either order
+    for e in ["r.n in [1, 2, r.m]", "'ab' not in r.s", "r.s in ['a', 'b', r.t] and r.n not in (1, 2)", "any(x in r.s for x in r.sl)", "r.n == r.m"]:
+        name = f"C07.history[Selector({e!r}) handed to make_selector(force_compiled=True), both used afterwards]"
+
+        def th_hist(e=e):
+            rec = mkrec()
+            s_ = it.call(sel.g["Selector"], [e], {})
+            out = []
+            try:
+                out.append(("val", it.truth(it.call(it.getattr_(s_, "match"), [rec], {}))))
+            except PyRaise as ex:
+                out.append(("raise", ex.cls_name))
+            c_ = it.call(sel.g["make_selector"], [s_], {"force_compiled": True})
+            for obj in (c_, s_, c_):
+                try:
+                    out.append(("val", it.truth(it.call(it.getattr_(obj, "match"), [rec], {}))))
+                except PyRaise as ex:
+                    out.append(("raise", ex.cls_name))
+            try:
+                out.append(("val", it.truth(py_meaning(e, rec))))
+            except PyRaise as ex:
+                out.append(("raise", ex.cls_name))
+            return out
+
+        def judge_hist(p, e=e):
+            *got, spec = p.value
+            if spec[0] == "raise":
+                return True
+            if any(g[0] == "raise" for g in got):
+                return False, f"{e!r}: interpreted before / compiled / interpreted after / compiled again: {got}, Python {spec}"
+            return z3.And(*[truthterm(g[1]) == truthterm(spec[1]) for g in got]), f"{e!r}: interpreted before / compiled / interpreted after / compiled again: {[g[1] for g in got]!r}, Python {spec[1]!r}"
+
+        pack.add(Obligation(name, lambda tier, name=name, th_hist=th_hist, judge_hist=judge_hist, e=e: prove_paths(name, th_hist, judge_hist, lambda m, p, e=e: {"expr": e, "n": model_value(m, n) if m is not None else 0, "m": model_value(m, mm) if m is not None else 0, "s": model_value(m, sv) if m is not None else "", "t": model_value(m, tv) if m is not None else ""}),
+                            replay=lambda w: {"call": "c07_history_compile", "args": {"expr": w.get("expr"), "n": w.get("n") or 0, "m": w.get("m") or 0, "s": w.get("s") or "", "t": w.get("t") or ""}}, functions=FU + ("flow.record.selector:make_selector",), mode="history: interpreted, compiled from the Selector object, interpreted again"))
+
     # the helper functions on a grouped record: both engines give the documented answer (names() are the member type names, name() is the group's)
     for expr, want in (('"c07/ma" in names(r)', True), ('"c07/mb" in names(r)', True), ('"c07/grp" in names(r)', False), ('name(r) == "c07/grp"', True), ("has_field(r, 'b2')", True), ("field_equals(r, ['a1', 'b2'], ['bee'])", True)):
         name = f"C07.grouped[{expr}]"
